@@ -64,7 +64,7 @@ def main():
 
 HOOK_COMMITS = ["de5dfe6"]
 # properties whose check has been reviewed and runs clean on the unchanged tree
-READY = ["C01", "C02", "C03", "C04", "C05", "C06", "C07", "C08", "C09", "C10", "C11", "C12", "C13", "C14", "C15", "C16", "C17", "C18", "C20"]
+READY = ["C01", "C02", "C03", "C04", "C05", "C06", "C07", "C08", "C09", "C10", "C11", "C12", "C13", "C14", "C15", "C16", "C17", "C18", "C19", "C20"]
 
 if __name__ == "__main__":
     main()
